@@ -184,6 +184,9 @@ func (mc *modelCase) build(c *fw.Case) (m *refmodel.Model, rs *jsonschema.Resolv
 }
 
 func firstWords(s string, n int) string {
+	if i := strings.Index(s, ": "); i >= 0 && strings.HasPrefix(s, "#") || strings.HasPrefix(s, "http") && i >= 0 {
+		s = s[i+2:] // drop the schema location: the class of the refusal is what is counted
+	}
 	f := strings.Fields(s)
 	if len(f) > n {
 		f = f[:n]
